@@ -35,6 +35,11 @@ def check_equation_array_properties(equation, particle_arrays):
     """
     p_arrays = dict((x.name, x) for x in particle_arrays)
     _src, _dest = get_arrays_used_in_equation(equation)
+    # The precomputed symbols an equation uses (VIJ, HIJ, RHOIJ, ...) read
+    # arrays too and the generated code dereferences them.
+    _psrc, _pdest = Group(equations=[equation]).get_array_names()
+    _src.update(_psrc)
+    _dest.update(_pdest)
     if equation.dest not in p_arrays:
         msg = "ERROR: Equation {eq_name} has invalid dest: '{dest}'".format(
             eq_name=equation.name, dest=equation.dest
